@@ -32,7 +32,7 @@ ASSUMPTIONS = ['the oracle for a name is a stand-alone real monitor of the inlin
 REAL = common.REAL_ALL
 STUBS = common.STUBS_ALL
 INTERLEAVING_MEASURE = 'distinct (monitor kind, mode, number of updates or batches) tuples'
-PROBES = ['shared_subspec', 'nested_subspec', 'unreferenced_assertion', 'pastified', 'operand_of_bounded_future', 'online', 'dense_time', 'update_after_a_failed_update']
+PROBES = ['interface_aware_semantics', 'shared_subspec', 'nested_subspec', 'unreferenced_assertion', 'pastified', 'operand_of_bounded_future', 'online', 'dense_time', 'update_after_a_failed_update']
 
 
 def gen(rng, tier):
@@ -58,6 +58,27 @@ def gen(rng, tier):
     if rng.random() < 0.2:
         ast = sg.add_operator_twin(rng, ast, set(ops))                  # the same operands under another operator (log/pow ...)
     defs, top = sg.modularize(rng, ast, max_subs=3)
+    iastl = None
+    if kind in ('dt', 'ct') and rng.random() < 0.4:
+        # interface-aware semantics (only the combined classes take one): the parent and every stand-alone monitor get the same
+        # semantics and input/output declarations
+        iastl = {'sem': rng.choice(['output-robustness', 'input-robustness', 'output-vacuity', 'input-vacuity']),
+                 'io': dict((v, rng.choice(['input', 'output'])) for v in vars_ if rng.random() < 0.85)}
+        if nv >= 2 and rng.random() < 0.4 and not (mode == 'on' and future):
+            # directed: a named arithmetic sub-specification used as operand of several named predicates, one of which also
+            # mentions a variable of the other direction
+            x_, y_ = rng.sample(vars_, 2)
+            t1 = rng.choice([['abs', ['var', x_]], ['*', ['const', 2.0], ['var', x_]], ['-', ['var', x_], ['const', 1.0]]])
+            q1 = ['pred', rng.choice(sg.CMPS), ['ref', 'p1'], ['const', rng.choice(sg.LATTICE)]]
+            q2 = ['pred', rng.choice(sg.CMPS), ['ref', 'p1'], ['var', y_]]
+            if rng.random() < 0.3:
+                q2 = ['pred', q2[1], q2[3], q2[2]]
+            first, second = (q1, q2) if rng.random() < 0.6 else (q2, q1)
+            defs = [['p1', t1], ['p2', first]]
+            top = [rng.choice(['and', 'or', 'implies']), ['ref', 'p2'], second]
+            if rng.random() < 0.4:
+                top = [rng.choice(['once', 'historically']), top]
+            ast = sg.inline(defs, top)
     if rng.random() < 0.1:
         # an alias sub-specification: a bare constant or a bare variable with a name of its own
         defs, top = sg.add_alias(rng, defs, top, 'q0')
@@ -71,7 +92,7 @@ def gen(rng, tier):
             extra = None
     pastify = mode == 'on' and (any(x[0] in sg.FUTURE_OPS for x in sg.walk(ast)) or
                                 (extra and any(x[0] in sg.FUTURE_OPS for x in sg.walk(extra[1]))) or rng.random() < 0.1)
-    sc = {'kind': kind, 'mode': mode, 'vars': vars_, 'ast': ast, 'defs': defs, 'top': top, 'extra': extra, 'pastify': bool(pastify),
+    sc = {'iastl': iastl, 'kind': kind, 'mode': mode, 'vars': vars_, 'ast': ast, 'defs': defs, 'top': top, 'extra': extra, 'pastify': bool(pastify),
           'declare': rng.random() < 0.5, 'via': rng.choice(['add_sub_spec', 'text']), 'spell_seed': rng.randrange(1 << 30)}
     if dense:
         sc['signals'] = dict((v, world.gen_dense_signal(rng, rng.randint(2, 7), start_q=0, max_gap_q=4)[0]) for v in vars_)
@@ -129,6 +150,9 @@ def parent_desc(sc):
     else:
         desc['subspecs'] = subs
         desc['spec'] = top
+    if sc.get('iastl') and sc['kind'] in ('dt', 'ct'):
+        desc['semantics'] = sc['iastl']['sem']
+        desc['io'] = dict(sc['iastl']['io'])
     return desc
 
 
@@ -136,7 +160,11 @@ def alone_desc(sc, ast):
     dense = sc['kind'].startswith('ct')
     text = common.dense_text(ast) if dense else 'out = ' + sg.to_text(ast) + ';'
     past = sc['pastify'] and True
-    return {'cls': sc['kind'], 'vars': common.var_decls(sc['vars']), 'spec': text, 'pastify': past}
+    d = {'cls': sc['kind'], 'vars': common.var_decls(sc['vars']), 'spec': text, 'pastify': past}
+    if sc.get('iastl') and sc['kind'] in ('dt', 'ct'):
+        d['semantics'] = sc['iastl']['sem']
+        d['io'] = dict(sc['iastl']['io'])
+    return d
 
 
 def eqn(a, b):
@@ -304,6 +332,8 @@ def run(sc):
         r.probes['unreferenced_assertion'] += 1
     if sc['pastify']:
         r.probes['pastified'] += 1
+    if sc.get('iastl') and sc['kind'] in ('dt', 'ct'):
+        r.probes['interface_aware_semantics'] += 1
     if dense:
         r.probes['dense_time'] += 1
     for x in sg.walk(top):
